@@ -202,6 +202,7 @@ LoadLeafXml(v, T, pol) ==
   ELSE IF T = "bool" THEN
        IF k = "bool" THEN <<"val", v>>
        ELSE IF k = "int" /\ ~v[2] /\ SigBytes(v[3]) <= 1 /\ v[3][8] <= 1 THEN <<"val", <<"bool", v[3][8] = 1>>>>
+       ELSE IF k = "int" /\ ~v[2] THEN Overflow(pol)                      \* "2", "10", "300": a number the target cannot represent
        ELSE <<"any">>
   ELSE \* f32 / f64
        IF k \in {"f64", "f32"} THEN <<"val", XmlFloatOf(v, T)>>
